@@ -1,5 +1,7 @@
 __all__ = ["generate_module_tensora"]
 
+import os
+
 from returns.result import Failure, Result, Success
 
 from ..desugar import (
@@ -38,5 +40,10 @@ def generate_module_tensora(
 
     functions = [generate_ir(definition, graph, kernel_type) for kernel_type in kernel_types]
     module = Module(functions)
+
+    if os.environ.get("TENSORA_VERIF") == "1" and os.environ.get("TENSORA_VERIF_NO_PEEPHOLE"):
+        # Verification hook (inactive unless TENSORA_VERIF=1): hand back the module before the
+        # peephole pass so that optimised and unoptimised kernels can be compared.
+        return Success(module)
 
     return Success(peephole(module))
